@@ -74,6 +74,10 @@ def fnCall (m : Model) : P (List String) := do
     let init ← pRat; let unit ← pRat; let view : Bool ← Wire.get; let margin ← pRat
     let log : List CS ← Wire.get
     pure (Wire.put (plotlyRows init unit view (ganttC log margin)))
+  | "plotlyR" => do
+    let init ← pRat; let unit ← pRat; let vr : Bool ← Wire.get; let va : Bool ← Wire.get; let margin ← pRat
+    let log : List RS ← Wire.get
+    pure (Wire.put (plotlyRowsR init unit vr va (ganttR log margin)))
   | "extractT" => do
     let st : TS ← Wire.get; let times : List Nat ← Wire.get; let s ← getSt m
     pure (Wire.put (extractIdx m.nT s.logs.tState times st))
